@@ -82,6 +82,29 @@ class PolyInterp:
             if e.attr == 'T':
                 return self.ev(e.value)
             raise Uninterp('attribute ' + ast.unparse(e))
+        if isinstance(e, ast.ListComp) and len(e.generators) == 1 and not e.generators[0].ifs and not e.generators[0].is_async:
+            # a comprehension over explicit sequences (possibly zipped): evaluated element by element
+            g = e.generators[0]
+            it = g.iter
+            if isinstance(it, ast.Call) and isinstance(it.func, ast.Name) and it.func.id == 'zip' and not it.keywords:
+                seqs = [self.ev(a) for a in it.args]
+                if not all(isinstance(q, list) for q in seqs):
+                    raise Uninterp('zip of non-sequences')
+                items = [list(t) for t in zip(*seqs)]
+            else:
+                q = self.ev(it)
+                if not isinstance(q, list):
+                    raise Uninterp('comprehension over a non-sequence')
+                items = list(q)
+            out = PyList()
+            saved = dict(self.env)
+            try:
+                for item in items:
+                    self.bind(g.target, item)
+                    out.append(self.ev(e.elt))
+            finally:
+                self.env = saved
+            return out
         if isinstance(e, ast.Call):
             return self.call(e)
         raise Uninterp('expression ' + ast.unparse(e)[:50])
